@@ -909,6 +909,37 @@ func coAssigned(r *Report, rule string, primary *types.Var, partners []*types.Va
 						exits = nil
 					}
 				}
+				if len(exits) > 0 {
+					// the store sits in a closure or private helper (fail := func(err error) … { t.Info = nil; return … })
+					// and the partner is reassigned around every one of its calls, before or after
+					private := f.Parent() != nil
+					if !private {
+						if obj, isF := f.Object().(*types.Func); isF && !obj.Exported() {
+							private = true
+						}
+					}
+					calls, esc := r.P.callSitesOf(f)
+					if private && len(esc) == 0 && len(calls) > 0 {
+						all := true
+						for _, cs := range calls {
+							ci, isCall := cs.(*ssa.Call)
+							if !isCall || funcPkgPath(cs.Parent()) != funcPkgPath(f) {
+								all = false
+								break
+							}
+							g := cs.Parent()
+							isP := func(i ssa.Instruction) bool { return storesFieldOrCallsSetter(i, pv, 0) }
+							before := anyInstr(g, func(i ssa.Instruction) bool { return isP(i) && instrDominates(i, ci) }) != nil
+							if !before && len(exitsAvoiding(ci, isP, false)) > 0 {
+								all = false
+								break
+							}
+						}
+						if all {
+							exits = nil
+						}
+					}
+				}
 				if len(exits) == 0 {
 					r.Ok(rule, key, st.Pos(), "%s is reassigned together with %s on every path", pv.Name(), primary.Name())
 				} else {
